@@ -299,6 +299,36 @@ def macro_cases(start):
   }""" % (decl, mk, pat, lit_rs(lit), args, frags[0], frags[1], lit_rs("%s | %s" % (lit, args)), lit_rs(ph))
                   sample = "macro_rules! mk { ($n:ident { $f:ident, $g:ident }, $e:expr, $e2:expr, $s:stmt, $i:item) => { %s } } mk!(S { x, y }, %s, %s, let _k = 1, #[allow(dead_code)] const K2: i32 = 2;);" % (decl, frags[0], frags[1])
                   out.append(Case("c%d" % (start + len(out)), mod, meta={"derive": derive, "shape": "macro-generated " + shape, "n": 1, "sample": sample}))
+    # the literal itself written by the macro's CALLER (`$msg:literal`, the usual error-type macro): the names the derive provides
+    # for positional fields (`_0`, `_1`) and `_variant` have to resolve whatever the hygiene context of the literal is
+    lits = [("a {_0} b {_1}", False), ("{_1:>4}|{_0:<3}|{_0}", False), ("{_0:w$}", True), ("{_1:.p$} {_0}", True)]
+    for derive, (attr, ph) in TRAITS.items():
+        for k, (lit, named_extra) in enumerate(lits):
+            extra = ", w = 5usize" if "w$" in lit else (", p = 2usize" if "p$" in lit else "")
+            decl = "#[derive(derive_more::%s)] #[%s($msg%s)] pub struct $n(pub i32, pub f64);" % (derive, attr, extra)
+            mod = """use super::*;
+macro_rules! mk { ($n:ident, $msg:literal) => {
+    %s
+    impl $n { pub fn want(&self) -> String { format!($msg%s%s) } }
+} }
+mk!(S, %s);
+pub fn run(r: &mut R) {
+    for x in [-3i32, 0, 7] { for y in [2.5f64, -0.125] { let val = S(x, y); r.eq(%s, format!(%s, val), val.want()); } }
+}""" % (decl, "".join(", _%d = self.%d" % (i, i) for i in (0, 1) if "_%d" % i in lit), extra, lit_rs(lit), lit_rs(lit), lit_rs(ph))
+            out.append(Case("c%d" % (start + len(out)), mod, meta={"derive": derive, "shape": "macro-caller literal struct", "n": 1,
+                                                                  "sample": "macro_rules! mk { ($n:ident, $msg:literal) => { %s } } mk!(S, %s);" % (decl, lit_rs(lit))}))
+        decl = "#[derive(derive_more::%s)] #[%s($msg)] pub enum $n { #[%s($m2)] A(i32), #[%s(\"b\")] B }" % (derive, attr, attr, attr)
+        mod = """use super::*;
+macro_rules! mk { ($n:ident, $msg:literal, $m2:literal) => {
+    %s
+} }
+mk!(S, "<{_variant}>", "a{_0}a");
+pub fn run(r: &mut R) {
+    r.eq("shared wrapping literal from the caller", format!(%s, S::A(5)), "<a5a>".to_string()); r.eq("unit", format!(%s, S::B), "<b>".to_string());
+}""" % (decl, lit_rs(ph), lit_rs(ph))
+        if derive != "Debug":
+            out.append(Case("c%d" % (start + len(out)), mod, meta={"derive": derive, "shape": "macro-caller literal enum", "n": 1,
+                                                                  "sample": "macro_rules! mk { ($n:ident, $msg:literal, $m2:literal) => { %s } } mk!(S, \"<{_variant}>\", \"a{_0}a\");" % decl}))
     return out
 
 
